@@ -75,6 +75,13 @@ pub fn chain_of(c: &Case) -> Chain {
 
 /// exact sequential model of merge_all(n) over cold and hot inners
 pub fn model(c: &Case) -> Vec<N> {
+  model_with(c, &[], &mut vec![])
+}
+
+/// `choices[k]` picks which waiting inner is started at the k-th start from
+/// the queue (always 0 = FIFO for concat semantics); `fanout` records the
+/// queue length at every such point.
+pub fn model_with(c: &Case, choices: &[usize], fanout: &mut Vec<usize>) -> Vec<N> {
   struct M<'a> {
     c: &'a Case,
     n: usize,
@@ -84,6 +91,8 @@ pub fn model(c: &Case) -> Vec<N> {
     out: Vec<N>,
     done: bool,
     started: Vec<bool>,
+    choices: &'a [usize],
+    fanout: Vec<usize>,
   }
   impl<'a> M<'a> {
     fn start(&mut self, i: usize) {
@@ -111,7 +120,11 @@ pub fn model(c: &Case) -> Vec<N> {
         N::Complete => {
           self.running.retain(|x| *x != i);
           if !self.queue.is_empty() {
-            let j = self.queue.remove(0);
+            // which waiting inner starts next is only specified for concat (limit 1): FIFO
+            let k = self.fanout.len();
+            let pick = if self.n <= 1 { 0 } else { self.choices.get(k).cloned().unwrap_or(0).min(self.queue.len() - 1) };
+            self.fanout.push(if self.n <= 1 { 1 } else { self.queue.len() });
+            let j = self.queue.remove(pick);
             self.start(j);
           } else if self.outer_done && self.running.is_empty() {
             self.out.push(N::Complete);
@@ -130,6 +143,8 @@ pub fn model(c: &Case) -> Vec<N> {
     out: vec![],
     done: false,
     started: vec![false; c.inners.len()],
+    choices,
+    fanout: vec![],
   };
   let mut ended = vec![false; c.inners.len() + 1];
   for (who, n) in &c.timeline {
@@ -175,7 +190,39 @@ pub fn model(c: &Case) -> Vec<N> {
       m.inner(i, n);
     }
   }
+  *fanout = m.fanout.clone();
   m.out
+}
+
+/// every output the model allows (all start orders of waiting inners when the limit is >= 2)
+pub fn model_all(c: &Case) -> Vec<Vec<N>> {
+  let mut outs = vec![];
+  let mut choices: Vec<usize> = vec![];
+  loop {
+    let mut fan = vec![];
+    let o = model_with(c, &choices, &mut fan);
+    if !outs.contains(&o) {
+      outs.push(o);
+    }
+    // odometer over the recorded fan-outs
+    let mut cur: Vec<usize> = (0..fan.len()).map(|i| choices.get(i).cloned().unwrap_or(0)).collect();
+    let mut i = cur.len();
+    loop {
+      if i == 0 {
+        return outs;
+      }
+      i -= 1;
+      if cur[i] + 1 < fan[i] {
+        cur[i] += 1;
+        cur.truncate(i + 1);
+        break;
+      }
+    }
+    choices = cur;
+    if outs.len() > 200 {
+      return outs;
+    }
+  }
 }
 
 pub struct Obs {
@@ -254,12 +301,13 @@ pub fn judge(c: &Case, obs: &Result<Obs, String>) -> Option<(String, serde_json:
       }
     }
     Ok(o) => {
-      let exp = model(c);
+      let all = model_all(c);
+      let exp = all[0].clone();
       let lim = c.sp.limit();
       if o.max_live > lim {
         return Some(("limit_exceeded".into(), json!({"max_live_inners": o.max_live, "limit": lim})));
       }
-      if o.out == exp {
+      if all.contains(&o.out) {
         return None;
       }
       let items = |v: &[N]| v.iter().filter_map(|n| if let N::Next(x) = n { Some(x.int()) } else { None }).collect::<Vec<_>>();
